@@ -119,6 +119,10 @@ def streams(rng, tier):
             parts = ["+".join(rng.sample(["py2", "py3", "cp39", "cp312"], rng.choice([1, 2, 3]))), "+".join(rng.sample(["none", "abi3", "cp312"], rng.choice([1, 2]))),
                      "+".join(rng.sample(["any", "linux_x86_64", "win_amd64"], rng.choice([1, 2, 3])))]
             out.append(Case("perm-tags", "law.det.perm", ["tags", str(rng.randrange(10**6))] + parts, kind="law"))
+    for _ in range(150 if q else 3000):
+        out.append(Case("fresh-objects", "law.det.fresh", [gen_misc.requirement(rng), gen_misc.requirement(rng)], kind="law"))
+    for ta, tb in (("alpha>=1.0", "beta"), ("a", "a"), ("a[x]", "b"), ("b @ http://x", "c; os_name=='a'")):
+        out.append(Case("fresh-objects", "law.det.fresh", [ta, tb], kind="law"))
     # known finding D33: canonically equal but differently spelled clauses collapse to whichever was supplied first
     for a, b in (("==1.0", "==1.0.0"), (">=1.0", ">=1"), ("!=2.0.0", "!=2"), ("<=1.0a1", "<=1.0.alpha1"), ("==1.0", "== v1.0")):
         for kind in ("set", "req-clauses", "and"):
